@@ -253,6 +253,15 @@ pub fn gen_history(r: &mut Rng, kind: &'static str, with_time: bool) -> History 
         }
     }
     let addrs: Vec<u32> = flights.iter().map(|f| f.addr).collect();
+    // every sixth history: one aircraft has a shadow (e.g. its TIS-B rebroadcast under the
+    // neighbouring address) that sends bit-identical position reports right behind it
+    let twin: Option<(usize, u32)> = if r.below(6) == 0 {
+        let ti = r.below(flights.len() as u64) as usize;
+        let ta = flights[ti].addr ^ 1;
+        if addrs.contains(&ta) { None } else { Some((ti, ta)) }
+    } else {
+        None
+    };
     let len = match kind {
         "long" => r.range(300, 1500),
         _ => r.range(40, 260),
@@ -361,7 +370,19 @@ pub fn gen_history(r: &mut Rng, kind: &'static str, with_time: bool) -> History 
         } else {
             non_es_frame(r, &addrs)
         };
+        let shadow = match twin {
+            Some((ti, ta)) if ti == fi && roll < 55 && frame.len() == 14 => {
+                let mut me = [0u8; 7];
+                me.copy_from_slice(&frame[4..11]);
+                let df = if r.chance(0.5) { 17 } else { 18 };
+                Some(encode::long_frame(df, if df == 17 { 5 } else { *r.pick(&[0u8, 1, 2, 5, 6]) }, ta, &me).to_vec())
+            }
+            _ => None,
+        };
         ops.push(Op::Frame(frame));
+        if let Some(m) = shadow {
+            ops.push(Op::Frame(m));
+        }
     }
     History { receiver, max_range, ops, kind }
 }
@@ -724,7 +745,7 @@ pub fn run(ctx: &Ctx) -> i32 {
             vec!["SystemTime::now()/elapsed() resolve to the interposed clock_gettime (cross-checked by a real-time run without interposition)", "time is logical: the verdict never depends on wall-clock"],
         ),
         _ => (
-            "seeded histories of 40-1500 real frames (encoder -> bytes -> Frame::from_bytes -> Airplanes::action) over 1-12 aircraft: consistent flights, teleports of 99/101/150/5000 km, range-circle crossings, garbage CPR pairs, duplicates, same-parity runs, identification/velocity (with and without derived velocity)/other ES payloads, DF18 with every CF and PI != 0, non-ES formats addressed to tracked aircraft; 10 receivers incl. poles/antimeridian, 5 ranges, every fourth history with a receiver that moves (0.3-60 km steps) and changes its range setting between frames; one 66-72k-frame single-aircraft session per 3000 histories (C12: exact count beyond 2^16); after every step a snapshot of the real tracker (records, details, all_position, Display) is compared with the sequential model; isolation replay for up to 6 aircraft of every 4th history; distinct_nontrivial = histories",
+            "seeded histories of 40-1500 real frames (encoder -> bytes -> Frame::from_bytes -> Airplanes::action) over 1-12 aircraft: consistent flights, teleports of 99/101/150/5000 km, range-circle crossings, garbage CPR pairs, duplicates, same-parity runs, identification/velocity (with and without derived velocity)/other ES payloads, DF18 with every CF and PI != 0, non-ES formats addressed to tracked aircraft; 10 receivers incl. poles/antimeridian, 5 ranges, every fourth history with a receiver that moves (0.3-60 km steps) and changes its range setting between frames; every sixth history with a shadow aircraft under the neighbouring address sending bit-identical position reports; one 66-72k-frame single-aircraft session per 3000 histories (C12: exact count beyond 2^16); after every step a snapshot of the real tracker (records, details, all_position, Display) is compared with the sequential model; isolation replay for up to 6 aircraft of every 4th history; distinct_nontrivial = histories",
             vec!["events are derived from the frame bytes by the reference model, not by the decoder under test", "decisions within a 1e-9 relative band of the range/jump thresholds follow the implementation (counted)"],
         ),
     };
